@@ -4,6 +4,7 @@ import (
 	"go/ast"
 	"go/token"
 	"go/types"
+	"reflect"
 	"strings"
 
 	"verif/checker/eng"
@@ -139,12 +140,29 @@ func respReleaseSite(c *cx, id string, f *eng.Fn, call *ast.CallExpr) {
 	// of the body (not nested in if/for/switch/select) that closes r
 	uncondInLit := func(l *ast.FuncLit) bool {
 		for _, st := range l.Body.List {
-			switch st.(type) {
-			case *ast.IfStmt, *ast.ForStmt, *ast.RangeStmt, *ast.SwitchStmt, *ast.TypeSwitchStmt, *ast.SelectStmt:
+			// the header of a compound statement (init clause, condition, tag,
+			// range operand) runs unconditionally; its body does not
+			var hdr []ast.Node
+			switch s := st.(type) {
+			case *ast.IfStmt:
+				hdr = []ast.Node{s.Init, s.Cond}
+			case *ast.ForStmt:
+				hdr = []ast.Node{s.Init}
+			case *ast.RangeStmt:
+				hdr = []ast.Node{s.X}
+			case *ast.SwitchStmt:
+				hdr = []ast.Node{s.Init, s.Tag}
+			case *ast.TypeSwitchStmt:
+				hdr = []ast.Node{s.Init, s.Assign}
+			case *ast.SelectStmt:
 				continue
+			default:
+				hdr = []ast.Node{st}
 			}
-			if closesR(st) {
-				return true
+			for _, h := range hdr {
+				if h != nil && !reflect.ValueOf(h).IsNil() && closesR(h) {
+					return true
+				}
 			}
 		}
 		return false
